@@ -12,7 +12,15 @@
               returns from the function at once (rows written before stay in the table)
      1104-1120 after the loop only:  if max > 0 && max > header.auto_increment() { header := max }
    DELETE, BEGIN/COMMIT/ROLLBACK (transaction.rs undo_write_entry deletes the rows, nothing else)
-   and close + Database::open never write the counter; open reads it back from page 0. *)
+   and close + Database::open never write the counter; open reads it back from page 0.
+
+   Two more ways of inserting rows never look at the counter at all (src/database/batch.rs):
+     insert_cached   what a PreparedStatement runs from its SECOND execution on
+                     (database.rs execute_with_cached_plan: the first execution goes through
+                     execute_insert_internal and caches a plan); needs one parameter per column
+     insert_batch    the bulk-load API
+   Both write the id values as given - NULL stays NULL, nothing is generated - and leave the
+   header counter alone ([Bulk] below). *)
 From Coq Require Import ZArith List Bool.
 From TV Require Import Lib.MachInt.
 Import ListNotations.
@@ -71,14 +79,32 @@ Definition insert_stmt (ai : Z) (rows : list row) (ext : option nat) : Z * list 
   | Failed => (ai, w, false)
   end.
 
+(* insert_cached / insert_batch: the integer ids written, as given; rows from the [ext]-th on are
+   not written (the call failed there) *)
+Fixpoint bulk_written (rows : list row) (ext : option nat) : list (Z * bool) :=
+  match rows with
+  | [] => []
+  | r :: t =>
+      match ext with
+      | Some O => []
+      | _ =>
+          match r with
+          | RNull => bulk_written t (option_map Nat.pred ext)
+          | RInt v => (v, false) :: bulk_written t (option_map Nat.pred ext)
+          end
+      end
+  end.
+
 (* histories *)
 Inductive op :=
 | Insert (rows : list row) (ext : option nat)
+| Bulk (rows : list row) (ext : option nat)
 | Delete | TxBegin | TxCommit | TxRollback | Reopen.
 
 Definition step (ai : Z) (o : op) : Z * list (Z * bool) :=
   match o with
   | Insert rows ext => let '(ai', w, _) := insert_stmt ai rows ext in (ai', w)
+  | Bulk rows ext => (ai, bulk_written rows ext)
   | _ => (ai, [])
   end.
 
@@ -118,7 +144,9 @@ Definition fresh_increasing_chk (tr : list (Z * bool)) : bool := fi_chk [] tr.
         earlier in the SAME statement: cur keeps counting from the old value and can reach it
      2  a statement fails after writing a row whose id is above the header counter: the rows stay
         (no statement atomicity) but the counter is only written after the loop, so the ids come
-        again *)
+        again
+     4  insert_cached / insert_batch writes an explicit id above the header counter: the counter
+        does not learn about it and generates it later *)
 Fixpoint gen_class (rows : list row) (ext : option nat) (cur max : Z) : Z :=
   match rows with
   | [] => 0
@@ -155,10 +183,12 @@ Fixpoint known_class_from (ai : Z) (h : list op) : Z :=
   | Insert rows ext :: t =>
       let c := stmt_class ai rows ext in
       if c =? 0 then known_class_from (fst (step ai (Insert rows ext))) t else c
+  | Bulk rows ext :: t =>
+      if existsb (fun x => fst x >? ai) (bulk_written rows ext) then 4 else known_class_from ai t
   | _ :: t => known_class_from ai t
   end.
 Definition known_class (h : list op) : Z := known_class_from 0 h.
 
-Definition is_insert (o : op) : bool := match o with Insert _ _ => true | _ => false end.
+Definition is_insert (o : op) : bool := match o with Insert _ _ | Bulk _ _ => true | _ => false end.
 Definition single_row (h : list op) : Prop :=
   forall rows ext, In (Insert rows ext) h -> (length rows <= 1)%nat.
